@@ -174,7 +174,6 @@ theorem completions_conserved (fuel : Nat) (c : CS) (o : Oracle) (out : List Out
           · simp [hq]
           · rw [onRun_count _ _ _ _ _ _ _ _ cid hc (fun c' o' out' tmo' => ih c' o' out' tmo'), hq]
 
-#print axioms completions_conserved
 
 /-- after the error branch no action of any client is left in the queue -/
 theorem failAll_queue_empty (rest : List Action) (c : CS) (a : Action) (o : Oracle) (out : List Out) (tmo : Option Time)
